@@ -450,6 +450,14 @@ fn worker(def: &PropDef, args: &WorkerArgs) -> WorkerReport {
 /// not possible for `extra`, so worker 0 does it; ~2300 children, a few seconds).
 fn extra(def: &PropDef, args: &WorkerArgs, report: &mut WorkerReport) {
     let known = Known::load();
+    // refused registrations whose action owns an unregister-on-drop guard (see reg.rs)
+    for v in 0..4u8 {
+        let rep = crate::reg::refused_reentrant_probe(v);
+        if let Some(x) = report.absorb(def, &rep, &known) {
+            report.violation = Some((x.key, x.msg, serde_json::json!({"refused_reentrant": v})));
+            return;
+        }
+    }
     let prefixes: Vec<Vec<u8>> = if args.tier == Tier::Thorough { vec![vec![], vec![0], vec![0, 1, 2], vec![3, 3]] } else { vec![vec![1]] };
     let nums = if args.tier == Tier::Thorough {
         numbers()
@@ -497,6 +505,9 @@ fn extra(def: &PropDef, args: &WorkerArgs, report: &mut WorkerReport) {
 }
 
 fn replay(v: &Value) -> CaseReport {
+    if let Some(a) = v.get("refused_reentrant").and_then(|a| a.as_u64()) {
+        return crate::reg::refused_reentrant_probe(a as u8);
+    }
     let case: C14Case = serde_json::from_value(v.clone()).expect("case");
     run_case(&case)
 }
